@@ -1,4 +1,5 @@
 import AtreeProofs.Iter.MapTop
+import AtreeProofs.Map.Overwrite
 /-
   C13, maps: the mutable iterator whose callback overwrites the value of the current key neither
   skips nor repeats.  RELATIVE to the in-place effect of `Set` on an existing key (hypothesis
@@ -69,6 +70,21 @@ theorem iterateWith_spec (hT : legalThreshold T = true) (hset : OverwriteInPlace
     obtain ⟨m', c', h1, h2, h3⟩ := iterMutableWith_spec hT hset upd hupd B [] p (m.count + 1) m c h hcfg hl (by
       rw [h.count_eq, hl]; simp only [List.length_cons]; omega)
     exact ⟨m', c', h1, h2, by rw [h3, hl]⟩
+
+/-- `Set` of an existing key replaces the value in place and preserves the invariant
+    (from `OMap.set_overwrite`). -/
+theorem overwriteInPlace (hT : legalThreshold T = true) : OverwriteInPlace T D cfg := by
+  intro m c A k v0 B v h hcfg hl hv
+  obtain ⟨m', c', hs, hinv, hcfg', _, hl', _, _⟩ := OMap.set_overwrite hT hcfg h hl hv c
+  exact ⟨some v0, m', c', _, hs, hinv, hcfg', hl'⟩
+
+/-- `Iterate` with overwrites of the current entry: exactly the original pair list, same keys after. -/
+theorem iterateWith_full (hT : legalThreshold T = true)
+    (upd : MKey → Elem → Option Elem) (hupd : ∀ k v v', upd k v = some v' → ValueOkM v')
+    (m : OMap r) (c : Ctx) (h : MapInv T D m) (hcfg : CfgOk cfg T m) :
+    ∃ m' c', m.iterateWith cfg upd c = .ok (m.toList, m', c') ∧ MapInv T D m' ∧
+      m'.toList.map (·.1) = m.toList.map (·.1) :=
+  iterateWith_spec hT (overwriteInPlace hT) upd hupd m c h hcfg
 
 end IterM
 end Atree
